@@ -451,6 +451,27 @@ func ctrlRegister(rt *runtime.Runtime, kind string, faults *ctrlFaults) error {
 			},
 			transform.WithInputFinalizers(),
 		))
+	case "transform-sel":
+		// the inputs are selected by label, the selector given in two WithInputListOptions calls (the queries add up)
+		return rt.RegisterController(transform.NewController(
+			transform.Settings[*CIn, *COut]{
+				Name:            ctrlName,
+				MapMetadataFunc: func(in *CIn) *COut { return NewCOut(in.Metadata().ID()) },
+				TransformFunc: func(_ context.Context, _ controller.Reader, _ *zap.Logger, in *CIn, out *COut) error {
+					if err := faults.next(); err != nil {
+						return err
+					}
+
+					out.spec = TSpec{S: ctrlTransformSpec(in.spec.S)}
+
+					return nil
+				},
+				FinalizerRemovalFunc: func(context.Context, controller.Reader, *zap.Logger, *CIn) error { return nil },
+			},
+			transform.WithInputFinalizers(),
+			transform.WithInputListOptions(state.WithLabelQuery(resource.LabelEqual("sel", "a"))),
+			transform.WithInputListOptions(state.WithLabelQuery(resource.LabelEqual("sel", "b"))),
+		))
 	case "cleanup":
 		return rt.RegisterController(cleanup.NewController(
 			cleanup.Settings[*CIn]{
@@ -482,7 +503,7 @@ func ctrlRegister(rt *runtime.Runtime, kind string, faults *ctrlFaults) error {
 	return fmt.Errorf("unknown controller kind %q", kind)
 }
 
-var ctrlKinds = []string{"qtransform", "transform", "cleanup", "destroy", "qtransform-ignore", "transform", "cleanup-combine"}
+var ctrlKinds = []string{"qtransform", "transform", "cleanup", "destroy", "qtransform-ignore", "transform", "cleanup-combine", "transform-sel"}
 
 func (e *ctrlEng) Gen(r *Rand, thorough bool, idx int) Case {
 	kind := ctrlKinds[idx%len(ctrlKinds)]
@@ -495,7 +516,7 @@ func (e *ctrlEng) Gen(r *Rand, thorough bool, idx int) Case {
 	}
 
 	isCleanup := kind == "cleanup" || kind == "cleanup-combine"
-	mapsOutputs := kind == "transform" || kind == "qtransform" || kind == "qtransform-ignore"
+	mapsOutputs := kind == "transform" || kind == "qtransform" || kind == "qtransform-ignore" || kind == "transform-sel"
 	outTypes := []string{ctrlOutType}
 
 	if kind == "cleanup-combine" {
@@ -555,7 +576,12 @@ func (e *ctrlEng) Gen(r *Rand, thorough bool, idx int) Case {
 		case x < 45:
 			c.Ops = append(c.Ops, "step")
 		case x < 57:
-			c.Ops = append(c.Ops, fmt.Sprintf("env do=put id=%s spec=s%d", id, r.Intn(3)))
+			if kind == "transform-sel" {
+				// the label is given at creation and never changed: an input is selected or not for its whole life
+				c.Ops = append(c.Ops, fmt.Sprintf("env do=put id=%s spec=s%d sel=%s", id, r.Intn(3), Pick(r, []string{"a", "a", "b", "c"})))
+			} else {
+				c.Ops = append(c.Ops, fmt.Sprintf("env do=put id=%s spec=s%d", id, r.Intn(3)))
+			}
 		case x < 65:
 			c.Ops = append(c.Ops, "env do=teardown id="+id)
 		case x < 70:
@@ -605,6 +631,11 @@ func ctrlEnv(ctx context.Context, env *ctrlProxy, a Args) {
 		if err != nil {
 			in := NewCIn(id)
 			in.spec = TSpec{S: a["spec"]}
+
+			if a["sel"] != "" {
+				in.md.Labels().Set("sel", a["sel"])
+			}
+
 			in.md.SetCreated(fromTick(0))
 			in.md.SetUpdated(fromTick(0))
 			_ = env.Create(ctx, in)
